@@ -93,6 +93,9 @@ func c01(r *rep.Run) {
 		var nb, nt, tr, ex int64
 		drive.ForBindings(Doms(p.Vars, true), vals, func() bool {
 			nb++
+			if nb%512 == 0 {
+				r.Note(w, p.Src) // progress within one program (many bindings)
+			}
 			env := envFor(p.Vars, vals)
 			rv, rerr := env.Eval(p.T)
 			want := refOut(rv, rerr)
